@@ -265,7 +265,7 @@ def op_alphabet():
     for c in ('c1', 'c2'):
         for ns in (('aa.bb', 'dd'), ('dd', 'aa'), ('aa.bb.cc', 'aa.bb')): ops.append(('pkgs', ns, c))
     for c in ('c1', 'c2', 'c1skip'): ops.append(('with', c))
-    ops.append(('exit',))
+    ops.append(('exit',)); ops.append(('withbad',))      # beartyping(conf=<not a configuration>): must raise and change nothing
     return ops
 
 class Model:
@@ -336,6 +336,12 @@ def run_history(hist):
                     except BeartypeClawHookException: raised = True
                     if not raised:
                         cms.append((cm, saved + (op[1],))); m.stack.append(saved); m.all = op[1]; m.skip |= set(skipnames(op[1]))      # the block's own skip list applies inside the block
+                elif op[0] == 'withbad':
+                    cmb = beartyping(conf='not a configuration')
+                    try: cmb.__enter__(); return f'step {step} {op}: beartyping(conf=<str>) was entered without BeartypeClawHookException'
+                    except BeartypeClawHookException: pass
+                    after = view()
+                    if any(after[q] is not before_real[q] for q in QUERY): return f'step {step} {op}: beartyping(conf=<invalid>) raised but the registry changed: ' + ', '.join(f'{q}: {before_real[q]!r} -> {after[q]!r}' for q in QUERY if after[q] is not before_real[q])[:300]
                 elif op[0] == 'exit':
                     if not cms: continue
                     cm, saved = cms.pop(); cm.__exit__(None, None, None); cm_conf = saved[4]
@@ -415,6 +421,7 @@ def classify(h, msg):
     if 'raised BeartypeClawHookException but the registry changed' in msg: return 'conflict_leaves_registry_changed'
     if 'after leaving beartyping()' in msg: return 'beartyping_exit_keeps_path_hook'
     if 'path hook not installed' in msg: return 'path_hook_missing_while_registered'
+    if 'beartyping(conf=<' in msg: return 'invalid_beartyping_changes_registry'
     kinds = '+'.join(sorted({o[0] for o in h}))
     if 'exit' in kinds and ('expected' in msg):
         if any(o[0] == 'with' and 'skip' in o[1] for o in h): return 'beartyping_exit_does_not_restore_skip_list'
